@@ -72,7 +72,8 @@ def model_replay(prop, tier, ev, rep, module, cfg, *, mode="fraction", label=Non
             rep.violation("vector:" + keyfn(t, fails), {"transition": t, "pair": pair, "failures": fails,
                                                         "mode": "fraction, 2-D points", "model": module, "cfg": cfg})
         nv = vector_replay(recs, lib, on_fail_vec)
-        from .vector import vector_fit, vector_matmul, vector_scalar_ops, vector_fitpoints
+        from .vector import vector_fit, vector_matmul, vector_scalar_ops, vector_fitpoints, vector_arith
+        nv += vector_arith(recs, lib, val, on_fail_vec)
         nv += vector_fit(recs, lib, val, on_fail_vec)
         nv += vector_matmul(recs, lib, val, on_fail_vec)
         nv += vector_scalar_ops(recs, lib, val, on_fail_vec)
@@ -334,8 +335,14 @@ def c02(tier):
     driver_big("C02", tier, ev, rep, "basis", 40 if tier == "quick" else 600)
     driver_fn("C02", tier, ev, rep, 60 if tier == "quick" else 1500)
     return finish(ev, rep)
-c04 = simple("C04", [("MC_Curve.tla", "MC_Curve_insert_TIER.cfg")],
-             thorough_extra=[("MC_Curve.tla", "MC_Curve_insert2_thorough.cfg")])
+def c04(tier):
+    ev = Evidence("C04", tier, core.seed())
+    rep = Reporter("C04", ev)
+    res = model_replay("C04", tier, ev, rep, "MC_Curve.tla", f"MC_Curve_insert_{tier}.cfg")
+    near_knot_insertions("C04", ev, rep, res.records, limit=150 if tier == "quick" else 2000)
+    if tier == "thorough":
+        model_replay("C04", tier, ev, rep, "MC_Curve.tla", "MC_Curve_insert2_thorough.cfg")
+    return finish(ev, rep)
 c05 = simple("C05", [("MC_Curve.tla", "MC_Curve_remove_TIER.cfg"), ("MC_Curve.tla", "MC_Curve_remove_narrow_quick.cfg")])
 def c06(tier):
     ev = Evidence("C06", tier, core.seed())
@@ -344,7 +351,13 @@ def c06(tier):
     model_replay("C06", tier, ev, rep, "MC_Curve.tla", f"MC_Curve_decrease_{tier}.cfg")
     driver_big("C06", tier, ev, rep, "elevate", 11 if tier == "quick" else 200)
     return finish(ev, rep)
-c07 = simple("C07", [("MC_Curve.tla", "MC_Curve_split_TIER.cfg"), ("MC_Curve.tla", "MC_Curve_join_TIER.cfg")])
+def c07(tier):
+    ev = Evidence("C07", tier, core.seed())
+    rep = Reporter("C07", ev)
+    res = model_replay("C07", tier, ev, rep, "MC_Curve.tla", f"MC_Curve_split_{tier}.cfg")
+    near_knot_insertions("C07", ev, rep, res.records, limit=100 if tier == "quick" else 2000)
+    model_replay("C07", tier, ev, rep, "MC_Curve.tla", f"MC_Curve_join_{tier}.cfg")
+    return finish(ev, rep)
 def c08(tier):
     ev = Evidence("C08", tier, core.seed())
     rep = Reporter("C08", ev)
@@ -405,13 +418,83 @@ def default_nodes_equivariant(ev, rep, records):
     ev.extra["default_node_fits_compared_over_affine_images"] = n
 
 
+def near_knot_insertions(prop, ev, rep, records, limit=150):
+    """knot_insert / split at a node 1e-10 beside an existing knot (a legal node: the property quantifies over all
+    nodes of the interval; float round-off produces such nodes, 0.1 + 0.2 beside 0.3).  TLC cannot hold the new knot
+    (32-bit integers), so the result is observed on the sample points of the OLD spans and TLC compares those values
+    with Eval of the old curve (event SameOnSpans); the new knot vector is compared here, exactly."""
+    from .trace import Validator
+    from .replay import strip_curve, rat
+    lib = core.import_lib()
+    r = Replayer(lib, "fraction")
+    val = Validator()
+    seen, n = set(), 0
+    eps = Fraction(1, 10 ** 10)
+    for t in records:
+        a = t["act"]
+        if a["name"] not in ("CvKnotInsert", "CvSplit") or t["d"] != 1 or t.get("ovf"):
+            continue
+        pre = t["pre"][a["obj"]]
+        key = json.dumps(pre, sort_keys=True)
+        if key in seen or len(seen) >= limit:
+            continue
+        seen.add(key)
+        U = [fr(x) for x in pre["U"]]
+        deg = r._deg(pre["U"])
+        if deg < 1:
+            continue
+        ks = sorted(set(U))
+        samples = r._sample_pts([pre["U"]], deg)
+        for k in ks[1:-1]:
+            if U.count(k) > deg:
+                continue
+            for nodes in ([k - eps], [k + eps], [k + eps, k - eps], [(ks[0] + ks[1]) / 2, k - eps]):
+                c = r.build_obj(pre)
+                what = f"{a['name']} at {[str(x) for x in nodes]}"
+                try:
+                    if a["name"] == "CvKnotInsert":
+                        c.knot_insert(list(nodes))
+                        pieces = [c]
+                        if sorted(U + list(nodes)) != [Fraction(x) for x in c.knotvector]:
+                            rep.violation("near-knot:knot vector is not the sorted union", {"transition": t, "failures": [
+                                f"{what}: knot vector {[str(x) for x in c.knotvector]}"], "mode": "fraction"})
+                            continue
+                    else:
+                        pieces = c.split(sorted(nodes))
+                    dv = []
+                    for u in samples:
+                        piece = [p for p in pieces if p.knotvector.limits[0] <= u <= p.knotvector.limits[1]]
+                        # a sample on a cut belongs to the piece on its right (values are right-continuous), the last one excepted
+                        q = piece[-1]
+                        v = q(u)
+                        if isinstance(v, float):
+                            raise TypeError(f"float value {v!r} from exact data")
+                        dv.append([rat(u), rat(v) if core.fits32(rat(v)) else [0, 0]])
+                except Exception as e:
+                    rep.violation("near-knot:raised", {"transition": t, "failures": [f"{what}: {type(e).__name__}: {e}"], "mode": "fraction"})
+                    continue
+                n += 1
+                val.add({"name": "SameOnSpans", "deg": deg, "op": what}, c=strip_curve(pre), dv=dv, tag=t)
+    if val.events:
+        verdicts, unknown, stats = val.run()
+        ev.states += stats["states"]
+        for e, tag in val.events:
+            fails = [f for f in (verdicts.get(e["id"]) or []) if not f.startswith("?")]
+            if fails:
+                rep.violation("near-knot:" + ",".join(fails), {"event": e, "clauses": fails, "transition": tag, "mode": "fraction",
+                                                               "failures": [f"{e['act']['op']}: {fails}"]})
+    ev.validated += n
+    ev.extra["near_knot_operations_judged"] = ev.extra.get("near_knot_operations_judged", 0) + n
+
+
 def c12(tier):
     ev = Evidence("C12", tier, core.seed())
     rep = Reporter("C12", ev)
     res = model_replay("C12", tier, ev, rep, "MC_Curve.tla", f"MC_Curve_fitpoints_{tier}.cfg")
     default_nodes_equivariant(ev, rep, res.records)
     return finish(ev, rep)
-c17 = simple("C17", [("MC_KnotVector.tla", "MC_KvUnion_TIER.cfg")])
+c17 = simple("C17", [("MC_KnotVector.tla", "MC_KvUnion_TIER.cfg"), ("MC_KnotVector.tla", "MC_KvUnion5_quick.cfg")],
+             thorough_extra=[("MC_KnotVector.tla", "MC_KvUnion6_thorough.cfg")])
 c19 = simple("C19", [("MC_Misc.tla", "MC_Misc_project_TIER.cfg")])
 c20 = simple("C20", [("MC_Misc.tla", "MC_Misc_intersect_TIER.cfg")])
 
